@@ -380,15 +380,15 @@ impl Prop for P {
     fn plan(tier: Tier) -> Plan {
         match tier {
             Tier::Quick => Plan {
-                workers: 8,
-                cases_per_worker: 700,
-                timeout_s: 1200,
+                workers: 16,
+                cases_per_worker: 8000,
+                timeout_s: 1800,
                 max_shrink_iters: 2000,
             },
             Tier::Thorough => Plan {
                 workers: 16,
-                cases_per_worker: 12000,
-                timeout_s: 7200,
+                cases_per_worker: 100000,
+                timeout_s: 14400,
                 max_shrink_iters: 2000,
             },
         }
